@@ -224,6 +224,43 @@ def run(F, R, tier):
                 aw = B.await_of(lock_calls[0][0])
                 R.check(aw is not None, "C14.R3", R.key("C14.R3", ts["id"], "lock-awaited"), q.where(B, lock_calls[0][0]),
                         "the lock future is awaited in place")
+    # the guard is held until the response has arrived: the send future is awaited in place and no drop of the guard lies before its poll
+    if ts:
+        B = mir.Body(ts, F)
+        def guard_of(o, depth=8):
+            """the MutexGuard local a `&mut Client` operand was derived from (through &mut / DerefMut::deref_mut)"""
+            while depth > 0 and o.get("k") in ("copy", "move"):
+                depth -= 1
+                l = o["p"]["l"]
+                ty = str(B.locals[l].get("ty", ""))
+                if "MutexGuard<" in ty and not ty.startswith("&"):
+                    return l
+                d = B.single_def(l)
+                if d is None:
+                    return None
+                bi_, si_, kind, payload = d
+                if kind == "assign" and payload["rv"]["k"] in ("use", "cast"):
+                    o = payload["rv"]["o"]
+                elif kind == "assign" and payload["rv"]["k"] == "ref":
+                    o = {"k": "copy", "p": {"l": payload["rv"]["p"]["l"], "p": []}}
+                elif kind == "call" and payload["args"]:
+                    o = payload["args"][0]
+                else:
+                    return None
+            return None
+        guards = [g for g in {guard_of(c[3]["args"][0]) for c in B.calls_named("Client::send_request")} if g is not None]
+        drops = [bi for bi, blk in enumerate(B.blocks) if not blk["cleanup"] and blk["term"]["k"] == "drop" and blk["term"]["p"]["l"] in guards
+                 and not blk["term"]["p"]["p"]]
+        polls = []
+        for bi, w, r, t_ in B.calls_named("Client::send_request"):
+            aw = B.await_of(bi)
+            if aw is not None:
+                polls.append(aw[0])
+        okg = bool(guards) and bool(drops) and bool(polls) and B.path(drops, polls) is None
+        R.check(okg, "C14.R3", R.key("C14.R3", ts["id"], "guard-held-across-response"), "%s:%s" % (ts["file"], ts["line"]),
+                "the mutex guard is dropped only after the awaited Client::send_request completed (requests on one upstream connection never overlap)",
+                "the response of Client::send_request is awaited after the connection's mutex guard was dropped (guards %d, drops %d, awaited sends %d): "
+                "a second request can be queued on the upstream connection while one is outstanding" % (len(guards), len(drops), len(polls)))
     bhs = "azure_proxy_agent::common::hyper_client::build_http_sender"
     got = G.callers(bhs)
     proxy_side = {c for c in got if "proxy::" in c}
